@@ -50,3 +50,18 @@ Definition check_meta_j (c : meta_case) : N :=
   let v := check_meta c in
   (if N.testbit v 0 then 1 else 0) + (if N.testbit v 1 then 2 else 0)
   + (if N.testbit v 2 || N.testbit v 3 then 4 else 0).
+
+(* Multi-engine histories (a tree that was processed, then extended with preferred-engine options, then processed and
+   executed again): only the library's own declaration against the rows it then yields.  bit 4 as above. *)
+Record decl_case := DCase {
+  dc_cols : gset tag; dc_min : Z; dc_max : option Z; dc_ident : bool; dc_rows : rows }.
+
+Definition check_decl (c : decl_case) : N :=
+  let l := dc_rows c in
+  let n := Z.of_nat (length l) in
+  if forallb (fun r : row => bool_decide (dom r = dc_cols c)) l
+     && Z.leb (dc_min c) n
+     && match dc_max c with Some m => Z.leb n m | None => true end
+     && implb (dc_ident c) (rows_eqb l [∅])
+     && implb (bool_decide (dc_max c = Some 0%Z)) (rows_eqb l [])
+  then 0 else 4.
